@@ -15,7 +15,13 @@
 (*   validate  the unspents the transaction holds at that moment, a database,*)
 (*             and whether validate_unspents returned (with which fee)       *)
 (*   conv      a conversion call: direction, unit, satoshi digits, text      *)
-(* The state carries the transaction from its build to later validations.    *)
+(*   set / assign / fromdb / append / replace   the object is edited         *)
+(*             (TxSession.tla's writers), with whether the call raised       *)
+(*   tin / tout / fee                           total_in(), total_out(),     *)
+(*             fee() of the long-lived object                                *)
+(* The state carries the transaction from its build through every edit: TLC  *)
+(* applies the logged edits itself and demands that each answer is the one   *)
+(* the CURRENT fields determine (history independence), on the real amounts. *)
 EXTENDS Integers, Sequences, FiniteSets, Json, IOUtils, TLC, TLCExt
 
 B == 10000
@@ -64,19 +70,57 @@ TBuild == /\ l <= Len(Ev) /\ Cur.k = "build" /\ ~built
                   /\ built' = TRUE
           /\ l' = l + 1 /\ UNCHANGED tid
 
-\* ---- validate: the recorder may have re-paired the inputs with other unspents
-\* (set_unspents) before the call; the event says what the transaction held
+\* ---- validate: against the fields TLC tracks (the logged unspents must be those)
+DbOf(e) == [s \in 1..Len(e.db) |-> DbEntry(e.db[s])]
+SrcsKnown(db) == \A i \in 1..Len(tx.ins) : tx.ins[i].src \in DOMAIN db
+CurIn  == L!Total(L!Amts(tx.unspents))
+CurOut == L!Total(L!Amts(tx.outs))
 TValidate ==
   /\ l <= Len(Ev) /\ Cur.k = "validate" /\ built
-  /\ Len(Cur.unsp) = Len(tx.ins) /\ WfAmts(L!Amts(Map(Cur.unsp, Un)))
-  /\ LET t  == [tx EXCEPT !.unspents = Map(Cur.unsp, Un)]
-         db == [s \in 1..Len(Cur.db) |-> DbEntry(Cur.db[s])] IN
-     /\ \A i \in 1..Len(t.ins) : t.ins[i].src \in DOMAIN db
-     /\ Cur.ret = U!AllBacked(t, db)
-     /\ Cur.ret => /\ Lm!IsLimbs(Cur.fmag)
-                   /\ L!FeeReport(t, L!Total(L!Amts(t.unspents)), L!Total(L!Amts(t.outs)), Cur.fsign, Cur.fmag)
-     /\ tx' = t
+  /\ Map(Cur.unsp, Un) = tx.unspents
+  /\ LET db == DbOf(Cur) IN
+     /\ SrcsKnown(db)
+     /\ Cur.ret = U!AllBacked(tx, db)
+     /\ Cur.ret => Lm!IsLimbs(Cur.fmag) /\ L!FeeReport(tx, CurIn, CurOut, Cur.fsign, Cur.fmag)
+  /\ l' = l + 1 /\ UNCHANGED <<tid, tx, built>>
+
+\* ---- the session: writers
+TSet ==      \* checked setter: a list of the wrong length raises and changes nothing
+  /\ l <= Len(Ev) /\ Cur.k = "set" /\ built
+  /\ WfAmts(L!Amts(Map(Cur.un, Un)))
+  /\ IF Len(Cur.un) = Len(tx.ins)
+     THEN Cur.ok /\ tx' = [tx EXCEPT !.unspents = Map(Cur.un, Un)]
+     ELSE ~Cur.ok /\ UNCHANGED tx
   /\ l' = l + 1 /\ UNCHANGED <<tid, built>>
+TAssign ==   \* tx.unspents = list (lists of the right length only)
+  /\ l <= Len(Ev) /\ Cur.k = "assign" /\ built
+  /\ WfAmts(L!Amts(Map(Cur.un, Un))) /\ Len(Cur.un) = Len(tx.ins) /\ Cur.ok
+  /\ tx' = [tx EXCEPT !.unspents = Map(Cur.un, Un)]
+  /\ l' = l + 1 /\ UNCHANGED <<tid, built>>
+TFromDb ==
+  /\ l <= Len(Ev) /\ Cur.k = "fromdb" /\ built
+  /\ LET db == DbOf(Cur) IN
+     /\ SrcsKnown(db)
+     /\ Cur.ok = U!Fetchable(tx, db)
+     /\ IF Cur.ok THEN tx' = [tx EXCEPT !.unspents = U!Fetched(tx, db)] ELSE UNCHANGED tx
+  /\ l' = l + 1 /\ UNCHANGED <<tid, built>>
+TAppend ==
+  /\ l <= Len(Ev) /\ Cur.k = "append" /\ built /\ Lm!IsLimbs(Cur.out[2])
+  /\ tx' = [tx EXCEPT !.outs = Append(@, Pay(Cur.out))]
+  /\ l' = l + 1 /\ UNCHANGED <<tid, built>>
+TReplace ==
+  /\ l <= Len(Ev) /\ Cur.k = "replace" /\ built /\ Lm!IsLimbs(Cur.out[2])
+  /\ Cur.i \in 1..Len(tx.outs)
+  /\ tx' = [tx EXCEPT !.outs[Cur.i] = Pay(Cur.out)]
+  /\ l' = l + 1 /\ UNCHANGED <<tid, built>>
+\* ---- the session: queries (answers are functions of the current fields)
+TTin  == /\ l <= Len(Ev) /\ Cur.k = "tin" /\ built /\ Cur.v = CurIn
+         /\ l' = l + 1 /\ UNCHANGED <<tid, tx, built>>
+TTout == /\ l <= Len(Ev) /\ Cur.k = "tout" /\ built /\ Cur.v = CurOut
+         /\ l' = l + 1 /\ UNCHANGED <<tid, tx, built>>
+TFee  == /\ l <= Len(Ev) /\ Cur.k = "fee" /\ built
+         /\ Lm!IsLimbs(Cur.fmag) /\ L!FeeReport(tx, CurIn, CurOut, Cur.fsign, Cur.fmag)
+         /\ l' = l + 1 /\ UNCHANGED <<tid, tx, built>>
 
 \* ---- conv
 DigitOf(ch) == CHOOSE d \in 0..9 : CD!Ch[d + 1] = ch
@@ -105,7 +149,9 @@ TConv ==
 
 TInit == /\ TLCSet(1, {})
          /\ tid \in 1..Len(Traces) /\ l = 1 /\ tx = NoTx /\ built = FALSE
-TNext == TBuild \/ TValidate \/ TConv
+TNext == \/ TBuild \/ TValidate \/ TConv
+         \/ TSet \/ TAssign \/ TFromDb \/ TAppend \/ TReplace
+         \/ TTin \/ TTout \/ TFee
 TSpec == TInit /\ [][TNext]_tvars
 
 Reached == IF l = Len(Ev) + 1 THEN TLCSet(1, TLCGet(1) \cup {tid}) ELSE TRUE
